@@ -10,8 +10,8 @@ class List(Expression):
 
     def __init__(self, expr, min_len=None, max_len=None):
         self.expr = expr
-        self.min_len = min_len
-        self.max_len = max_len
+        self.min_len = _normalize_bound(min_len)
+        self.max_len = _normalize_bound(max_len)
         _check_min_and_max_len(min_len, max_len)
 
     def __str__(self):
@@ -41,7 +41,7 @@ class List(Expression):
         return True
 
     def _compile(self, out, flags):
-        if self.max_len == 0 or self.max_len == '0':
+        if (self.max_len == 0 or self.max_len == '0') and self.always_succeeds():
             out += RESULT << []
             out += STATUS << True
             return
@@ -53,7 +53,7 @@ class List(Expression):
             # Test the upper bound before parsing the next element, so that a
             # bound of zero that is only known at parse time is honoured too.
             if self.max_len is not None:
-                with out.IF(LEN(staging) >= Code(self.max_len)):
+                with out.IF(LEN(staging) >= Code(f'({self.max_len})')):
                     out += BREAK
 
             if self.expr.can_partially_succeed():
@@ -74,11 +74,27 @@ class List(Expression):
         if self.min_len == 1 or self.min_len == '1':
             condition = staging
         else:
-            condition = LEN(staging) >= Code(self.min_len)
+            condition = LEN(staging) >= Code(f'({self.min_len})')
 
         with out.IF(condition):
             out += RESULT << staging
             out += STATUS << True
+
+        with out.ELSE():
+            # The loop may have stopped at the upper bound, after a success.
+            with out.IF(STATUS):
+                out += RESULT << self.error_func()
+                out += STATUS << False
+
+    def complain(self):
+        return f'Expected at least {self.min_len} repetitions of: {self.expr}'
+
+
+def _normalize_bound(bound):
+    # "{01}" is the number one (and not valid as a Python literal).
+    if isinstance(bound, str) and bound.isdigit():
+        return str(int(bound))
+    return bound
 
 
 def _check_min_and_max_len(min_len, max_len):
